@@ -452,6 +452,24 @@ protected:
     }
 #endif
 
+    // Access only the first n bytes of the bit field (n <= sizeof(bitfield_t)). Used by references
+    // whose bit range ends before the bit field does, so that no byte past the channel is touched
+    auto get_data(std::size_t n) const -> bitfield_t
+    {
+        bitfield_t ret = bitfield_t();
+        unsigned char const* from = gil_reinterpret_cast_c<unsigned char const*>(_data_ptr);
+        unsigned char* to = gil_reinterpret_cast<unsigned char*>(&ret);
+        for (std::size_t i = 0; i < n; ++i) to[i] = from[i];
+        return ret;
+    }
+
+    void set_data(bitfield_t const& val, std::size_t n) const
+    {
+        unsigned char const* from = gil_reinterpret_cast_c<unsigned char const*>(&val);
+        unsigned char* to = gil_reinterpret_cast<unsigned char*>(_data_ptr);
+        for (std::size_t i = 0; i < n; ++i) to[i] = from[i];
+    }
+
 private:
     void set(integer_t value) const {     // can this be done faster??
         this->derived().set_unsafe(((value % num_values) + num_values) % num_values);
@@ -662,7 +680,15 @@ public:
     auto get() const -> integer_t
     {
         const BitField channel_mask = static_cast< integer_t >( parent_t::max_val ) <<_first_bit;
-        return static_cast< integer_t >(( this->get_data()&channel_mask ) >> _first_bit );
+        return static_cast< integer_t >(( this->get_data(data_size())&channel_mask ) >> _first_bit );
+    }
+
+private:
+    // number of bytes, starting at the data pointer, that hold the bits of this channel
+    auto data_size() const -> std::size_t
+    {
+        std::size_t const n = (_first_bit + NumBits + 7) / 8;
+        return n < sizeof(BitField) ? n : sizeof(BitField);
     }
 };
 
@@ -708,12 +734,20 @@ public:
     auto get() const -> integer_t
     {
         BitField const channel_mask = static_cast< integer_t >( parent_t::max_val ) << _first_bit;
-        return static_cast< integer_t >(( this->get_data()&channel_mask ) >> _first_bit );
+        return static_cast< integer_t >(( this->get_data(data_size())&channel_mask ) >> _first_bit );
     }
 
     void set_unsafe(integer_t value) const {
         const BitField channel_mask = static_cast< integer_t >( parent_t::max_val ) << _first_bit;
-        this->set_data((this->get_data() & ~channel_mask) | value<<_first_bit);
+        this->set_data((this->get_data(data_size()) & ~channel_mask) | value<<_first_bit, data_size());
+    }
+
+private:
+    // number of bytes, starting at the data pointer, that hold the bits of this channel
+    auto data_size() const -> std::size_t
+    {
+        std::size_t const n = (_first_bit + NumBits + 7) / 8;
+        return n < sizeof(BitField) ? n : sizeof(BitField);
     }
 };
 } }  // namespace boost::gil
